@@ -83,7 +83,7 @@ impl PanicRec {
     /// the code: tokio's timers and I/O driver need a tokio runtime, and the
     /// tasks here are polled by the simulator's own executor (DESIGN.md 10.6)
     pub fn env_limit(&self) -> bool {
-        self.msg.contains("there is no reactor running") || self.msg.contains("there is no timer running") || self.msg.contains("must be called from the context of a Tokio")
+        self.msg.contains("there is no reactor running") || self.msg.contains("there is no timer running") || self.msg.contains("must be called from the context of a Tokio") || self.msg.contains("IO is disabled")
     }
     pub fn short_loc(&self) -> String {
         // path relative to the repository, without line (lines move)
